@@ -499,8 +499,23 @@ def setitem(I, a, idx, value):
         i = check_index(I, idx, a.shape[0])
         a.elem = lambda k, *rest, _o=old, _i=i: z3.If(Z(k) == Z(_i), val_at(*rest) if rest or vk is not None else val_at(), _o(k, *rest))
         return
+    if getattr(a, "frozen", False):
+        I.event("mutate", target=a.tag, frozen=True, how="array store")
     if isinstance(idx, slice) and idx.start is None and idx.stop is None:
         a.elem = lambda *ii: val_at(*ii)
+        return
+    if isinstance(idx, slice):
+        lo, hi = slice_bounds(I, idx, a.shape[0])
+        zlo, zhi = Z(lo), Z(hi)
+        if vk is not None and vk.ndim >= 1:
+            # numpy requires the value to have the slice's length (or length 1)
+            if not I.path.branch(z3.Or(Z(vk.shape[0]) == zhi - zlo, Z(vk.shape[0]) == 1), f"slice-assign-length@{I.cur_line}"):
+                I.raise_(ValueError)
+            one = Z(vk.shape[0]) == 1
+            a.elem = lambda k, *rest, _o=old, _v=vk.elem: z3.If(z3.And(Z(k) >= zlo, Z(k) < zhi), _v(z3.If(one, 0, Z(k) - zlo), *rest), _o(k, *rest))
+        else:
+            a.elem = lambda k, *rest, _o=old: z3.If(z3.And(Z(k) >= zlo, Z(k) < zhi), val_at(*rest) if vk is not None else val_at(), _o(k, *rest))
+        I.event("slice-store", target=a.tag, lo=lo, hi=hi, arr=a, value=vk)
         return
     if isinstance(idx, Arr) and idx.dtype == "bool" and idx.ndim == 1:
         if vk is not None and vk.ndim >= 1:
@@ -611,6 +626,9 @@ def a_tolist(I, a):
     # a nested list with the same contents; kept as an array-backed sequence
     out = Arr(a.shape, a.elem, a.dtype, a.tag + ".tolist")
     out.is_list = True
+    for extra in ("blocks", "sel"):
+        if hasattr(a, extra):
+            setattr(out, extra, getattr(a, extra))
     return out
 
 
@@ -1061,6 +1079,18 @@ def np_hstack(I, args, kw):
         total = offs[-1]
         return Arr((total if isinstance(total, int) else total.e,), elem, dt, "hstack")
     raise Unsupported("hstack of rank > 1")
+
+
+@model(np.logical_or)
+def np_logical_or(I, args, kw):
+    a, b = as_arr(I, args[0], allow_scalar=True), as_arr(I, args[1], allow_scalar=True)
+    return binop(I, ast.BitOr(), a, b)
+
+
+@model(np.logical_and)
+def np_logical_and(I, args, kw):
+    a, b = as_arr(I, args[0], allow_scalar=True), as_arr(I, args[1], allow_scalar=True)
+    return binop(I, ast.BitAnd(), a, b)
 
 
 @model(np.isnan)
